@@ -552,7 +552,7 @@ func (p *parser) escape(out []byte, clob bool) []byte {
 		}
 		if c == 'U' {
 			r := p.hex(8)
-			if r > 0x10FFFF || (r >= 0xD800 && r <= 0xDFFF) {
+			if r < 0 || r > 0x10FFFF || (r >= 0xD800 && r <= 0xDFFF) { // r < 0: eight digits starting 8..F overflow a rune
 				p.failAt(st, "\\U escape is not a Unicode scalar value")
 			}
 			return utf8.AppendRune(out, r)
